@@ -77,6 +77,8 @@ def run(ctx):
         ctx.ob("R-SDP", up, "S1 every constraint reaches the problem", not d, "ok" if not d else "constraint dropped")
         solve_threading(ctx, up, sk)
         returns_optimum(ctx, up, sk)
+        from .disc_common import real_objective
+        real_objective(ctx, up, p)
     ud = m.func(f"{mod}._unambiguous_dual")
     sk2 = Skeleton(m, ud)
     r_hermitian_vars(ctx, ud, sk2)
